@@ -93,6 +93,40 @@ func Harness_C15_multi() {
 	}
 }
 
+// Harness_C15_single: configuration sets for a single log server (ValidateLogConfigs): up to
+// two (thorough: three) logs with prefixes, tree IDs and (stray) backend names drawn from small sets: accepted
+// exactly when every prefix is non-empty, prefixes are distinct and tree IDs are distinct --
+// whatever the backend names say (on a single server every log lives on the one backend).
+//
+//verif:opt maxpaths=60000 reach=accepted,rejected wall=600
+func Harness_C15_single() {
+	c15PubOK, c15PrivOK, c15SigOK, c15MySQLOK, c15PgOK = true, true, true, true, true
+	nl := vChoice("n-logs", 3+vTier()) // up to two logs (thorough: three)
+	var cfgs []*configpb.LogConfig
+	ok := true
+	for i := 0; i < nl; i++ {
+		p, be := c15Names[vChoice("prefix", 3)], c15Names[vChoice("log-backend", 3)]
+		id := int64(1 + vChoice("tree-id", 2))
+		if p == "" {
+			ok = false
+		}
+		for _, c := range cfgs {
+			if c.Prefix == p || c.LogId == id {
+				ok = false
+			}
+		}
+		cfgs = append(cfgs, &configpb.LogConfig{LogId: id, Prefix: p, LogBackendName: be, PrivateKey: &anypb.Any{}, PublicKey: &keyspb.PublicKey{}})
+	}
+	err := ValidateLogConfigs(cfgs)
+	if ok {
+		vAssert(err == nil, "well-formed single-server configuration set accepted")
+		vReach("accepted")
+	} else {
+		vAssert(err != nil, "empty or repeated prefix, or a tree ID used twice on the one server: rejected")
+		vReach("rejected")
+	}
+}
+
 // Harness_C15_instance: the instance exposes the two submission endpoints iff the log is
 // neither a mirror nor read-only; a frozen log serves exactly its frozen STH without consulting
 // the backend.
